@@ -46,16 +46,20 @@ impl OpeningHoursExpression {
 
         if tail.operator == RuleOperator::Fallback {
             // A fallback rule only applies when previous rules leave nothing but closed periods,
-            // so they must either be closed or result in the same kind for the whole day.
+            // so they must either all be closed or each result in a single kind for the whole
+            // day (a closed rule for a part of the day would split a whole day of this kind).
             let tail_idx = (self.rules.iter())
                 .position(|rs| std::ptr::eq(rs, tail))
                 .unwrap_or(0);
 
-            let head_is_compatible = self.rules[..tail_idx].iter().all(|rs| {
-                rs.kind == RuleKind::Closed || (rs.kind == kind && rs.time_selector.is_00_24())
+            let head = &self.rules[..tail_idx];
+            let head_is_closed = head.iter().all(|rs| rs.kind == RuleKind::Closed);
+
+            let head_is_full_days = head.iter().all(|rs| {
+                (rs.kind == RuleKind::Closed || rs.kind == kind) && rs.time_selector.is_00_24()
             });
 
-            if !head_is_compatible {
+            if !head_is_closed && !head_is_full_days {
                 return false;
             }
         }
